@@ -351,6 +351,10 @@ ycw_get_yday(unsigned int y, int c, echs_wday_t w)
 			}
 			break;
 		}
+		if (UNLIKELY(res <= 7U)) {
+			/* there's only 52 of them, -53 doesn't exist */
+			return 0U;
+		}
 		return res - 7;
 	}
 	/* otherwise it's bullshit */
